@@ -934,7 +934,10 @@ fn run_with_old(sc: &Scenario, run: &mut Run, w1: &mut HW) -> Result<(), String>
             c.done = true;
         }
         let mut pending: Vec<usize> = clients.iter().enumerate().filter(|(_, c)| c.holds_stop() && !c.done).map(|(i, _)| i).collect();
-        pending.sort_by_key(|i| clients[*i].park.is_some());
+        // the parked H2 stream first: it ends at a time of its own (the backend's answer or the
+        // listener's graceful deadline), the H1 requests end when we finish them - so nothing can be
+        // acknowledged while we wait for it, and the order of events stays the one the trace records
+        pending.sort_by_key(|i| clients[*i].park.is_none());
         for (n, ci) in pending.iter().enumerate() {
             if w1.finals(&stop_id) > 0 {
                 run.fail("softstop-ack-before-drain", format!("final answer to SoftStop while {} request(s) were still in flight", pending.len() - n));
@@ -1317,12 +1320,6 @@ impl Area for Handover {
             // quick-tier friendly: short deadlines only (the 5 s / no-deadline cases are in the corpus
             // and in the `h2-deadline` family)
             clients.push(rng.pick(&["h2park-1-400", "h2park-1-1800", "h2park-2-1300", "h2park-u-500"]).to_string());
-        }
-        // a stream that the graceful deadline will cut ends at the deadline, not when we finish it:
-        // keep it the only request that holds the stop, so that the acknowledgement order stays decidable
-        let cut_phase = |c: &String| ["h2park-1-1800", "h2park-2-2800", "h2park-u-5900"].contains(&c.as_str());
-        if clients.iter().any(cut_phase) {
-            clients.retain(|c| cut_phase(c) || c == "idle" || c == "connected");
         }
         let inflight = clients.iter().filter(|c| ["head", "sent", "midbody"].contains(&c.as_str())).count();
         let early = rng.below(inflight as u64 + 1) as usize;
